@@ -161,6 +161,31 @@ def check_access(run, F, rule):
     return n
 
 
+def check_no_state_copies(run, F, rule):
+    """C14.e: the callbacks of a state run on the object access<T>() returns, so library code must never copy- or move-construct a state
+    wrapper (S_) or a user state -- a by-value local (`auto head = static_cast<HeadState&>(*this)`) would silently run them on a copy.
+    (Copying a whole machine goes through the implicit member-wise constructors of the owning classes, not through library code.)"""
+    n_fn = 0
+    for fn in F.fns:
+        if fn.body is None or fn.d.get('implicit') or (fn.kind == 'ctor' and fn.d.get('ctorkind') in ('copy', 'move')):
+            continue
+        if not (fn.tkey or '').startswith('ffsm2::detail::'):
+            continue
+        hits = []
+        for e in ir.all_exprs(fn):
+            if e['k'] == 'ctor' and (e.get('copy') or e.get('move')):
+                cls = e.get('cls') or ''
+                user = not cls.startswith('ffsm2::') and not cls.startswith('std::') and '::' in cls and (e.get('defloc') or '').find('/witness/') >= 0
+                if cls.startswith('ffsm2::detail::S_<') or cls.startswith('ffsm2::detail::C_<') or cls.startswith('ffsm2::detail::CS_<') or user:
+                    hits.append(ir.pp(e)[:70])
+        if hits:
+            n_fn += 1
+        if hits or fn.tkey in ('ffsm2::detail::C_', 'ffsm2::detail::R_'):
+            run.ob(rule, '%s does not copy a state object' % fn.short, not hits, where=fn.pat, detail=hits[:2] or None,
+                   key='%s copies a state object (callbacks would run on the copy)' % fn.short)
+    return n_fn
+
+
 def check_initial_request(run, F, rule):
     n = 0
     for fn in F.find('R_', 'initialEnter'):
@@ -192,6 +217,7 @@ def c14(run):
         run.count('split dispatchers', ns)
         run.count('leaf dispatchers', nl)
         check_access(run, F, 'C14.d')
+        check_no_state_copies(run, F, 'C14.e')
         from rules import c01 as _c01
         _c01.deactivation_resets(run, F, E, 'C14.c')      # ... so that the next activation starts in the first declared state
         facts.drop(F)
@@ -204,3 +230,4 @@ def c14(run):
     run.floor('C14.b', 300)
     run.floor('C14.c', 3)
     run.floor('C14.d', 6)
+    run.floor('C14.e', 20)
